@@ -156,6 +156,7 @@ class Interp:
     def __init__(self, repo, cfg, lexer_escapes=(), triaged_keys=()):
         self.repo, self.cfg = repo, cfg
         self.triaged_keys = set(triaged_keys)
+        self.infeasible = {k.split("|", 1)[1] for k in self.triaged_keys if k.startswith("T1|")}
         self.lat = ExcLattice(repo)
         self.lexer_escapes = tuple(lexer_escapes)   # (exc, origin) escaping the lexer besides LexerError
         self.summ = {}
@@ -279,6 +280,15 @@ class Interp:
         ex = set()
         for s in list(out.normal) + [x for (_, x) in out.returns]:
             self.t1_check(s, fn)
+            self.raw_check(s, fn, "return of " + fn.name)
+        if fn.name == "parse_aggregation_block" and selfkind == "parser":
+            self.events["block_exits"].add(f"{defcls}.{fn.name}")
+            for s in list(out.normal) + [x for (_, x) in out.returns]:
+                if s.get("$closed") != "TRUE":
+                    self.report("T9", f"{defcls}.{fn.name}", "returns without end statement",
+                                f"{defcls}.{fn.name} can return its block although parse_end_aggregation has not succeeded "
+                                f"on that path (stream={s.stream}): a group or object that is never closed is accepted",
+                                node=fn, state=f"stream={s.stream}")
         for s in out.normal:
             ex.add(("return", "NONE", s.lo, s.hi, s.stream, s.skipped, s.after_end, None, "falloff"))
         for (r, s) in out.returns:
@@ -287,8 +297,6 @@ class Interp:
             ex.add(("raise", None, s.lo, s.hi, s.stream, s.skipped or bool(s.get("$degraded")), s.after_end, e, origin))
         self.cur.pop()
         self.inprogress.discard(key)
-        if fn.name in self.skip_helpers and selfkind == "parser":
-            ex = {(k, r, lo, hi, s, True, ae, e, o) for (k, r, lo, hi, s, sk, ae, e, o) in ex}
         ex = frozenset(ex)
         if self.summ.get(key) != ex:
             self.summ[key] = ex
@@ -389,6 +397,8 @@ class Interp:
                         out.returns.add((val if (keepval(val) or isinstance(val, tuple)) else "OTHER", st2))
             return out
         if isinstance(s, ast.Raise):
+            if f"{self.fq()}|{self.anchor(s)}" in self.infeasible:
+                return out          # triaged as infeasible (conditional on a table rule): path pruned
             for st in states:
                 if s.exc is None:
                     out.raises.add((st.get("$handling") or "Exception", st, st.get("$origin") or self.where(s)))
@@ -503,7 +513,7 @@ class Interp:
             if touches:
                 self.events["while"].add(self.where(s))
                 for st in back:
-                    if self.truth(s.test, st) != "FALSE" and st.loop_lo < 1 and st.stream in ("PB", "FRESH"):
+                    if self.truth(s.test, st) != "FALSE" and st.loop_lo < 1 and st.stream in ("PB", "PBR", "FRESH"):
                         self.report("T4", self.fq(), self.anchor(s),
                                     f"loop `{self.anchor(s)}` in {self.fq()} can start another iteration without "
                                     f"having consumed a token (stream={st.stream}): zero-progress cycle",
@@ -791,23 +801,41 @@ class Interp:
             kind = "OTHER"
         return [(kind if not exc else None, s1, exc, org) for (vals, s1, exc, org) in self.eval_all(children, st)]
 
+    def raw_check(self, st, node, what):
+        """A token that was read without a preceding white-space/comment skip (so it may be a comment) and has
+        not been pushed back is now consumed for good: T6."""
+        flag = st.get("$raw")
+        if flag and not st.get("$degraded"):
+            fn, _, anchor = flag.partition("|")
+            self.report("T6", fn, anchor,
+                        f"{fn} `{anchor}`: a significant token is read with no white-space/comment skip since the "
+                        f"previous one and is kept (not pushed back): a comment at this grammar position would be taken "
+                        f"for the token", node=None, kept_until=what)
+        return st.set("$raw", None) if flag else st
+
     def ev_next(self, st, node, forloop=False):
         self.stats["next_events"] += 1
         self.events["for_tokens" if forloop else "next"].add(self.where(node))
         st = self.t1_check(st, node)
         w = self.where(node)
-        in_skip = self.cur[-1][2].name in self.skip_helpers
+        in_skip = self.cur[-1][2].name in self.skip_helpers and self.cur[-1][0] == "parser"
+        st = self.raw_check(st, node, w)
         res = []
         end = "$EXHAUST" if forloop else "StopIteration"
         if st.after_end and not st.get("$degraded"):
             self.report("T7", self.fq(), self.anchor(node),
                         f"{w}: a token is requested after the END statement was recognised", node=node)
-        if st.stream in ("PB", "FRESH"):
-            if st.stream == "FRESH" and not st.skipped and not in_skip and not st.get("$degraded"):
+        if st.stream in ("PB", "PBR", "FRESH"):
+            raw = (st.stream == "PBR" or (st.stream == "FRESH" and not st.skipped)) and not in_skip
+            if st.stream == "PBR" and not in_skip and not st.get("$degraded"):
                 self.report("T6", self.fq(), self.anchor(node),
-                            f"{w}: a significant token is read with no white-space/comment skip since the previous "
-                            f"one (a comment at this grammar position would be taken for the token)", node=node)
-            res.append(("TOKEN", replace(st.add(1, 1), stream="FRESH", skipped=False), None, None))
+                            f"{w}: reads as significant a pushed-back token that was first read with no white-space/comment "
+                            f"skip before it (a comment at this grammar position would be taken for the token)", node=node)
+                raw = False
+            s2 = replace(st.add(1, 1), stream="FRESH", skipped=False)
+            if raw:
+                s2 = s2.set("$raw", f"{self.fq()}|{self.anchor(node)}")
+            res.append(("TOKEN", s2, None, None))
         if st.stream == "FRESH":
             res.append((None, replace(st, stream="EXHAUSTED"), end, w))
             res.append((None, replace(st, stream="DEAD"), "LexerError", self.fq() + " `<lexer raised>`"))
@@ -833,14 +861,15 @@ class Interp:
                     if exc:
                         res.append((None, s1, exc, org))
                         continue
-                    if s1.stream == "PB":
+                    if s1.stream in ("PB", "PBR"):
                         self.report("T5", self.fq(), self.anchor(e),
                                     f"{w}: send() while a token is already pushed back (the lexer holds one slot; "
                                     f"the second token replaces nothing and desynchronises the stream)", node=e)
                     if s1.stream in ("EXHAUSTED", "DEAD"):
                         res.append((None, s1, "StopIteration", w))
                     else:
-                        res.append(("NONE", replace(s1.add(-1, -1), stream="PB"), None, None))
+                        raw = bool(s1.get("$raw"))
+                        res.append(("NONE", replace(s1.add(-1, -1), stream="PBR" if raw else "PB").set("$raw", None), None, None))
                 return res
             if f.attr == "throw":
                 self.events["throw"].add(w)
@@ -851,7 +880,7 @@ class Interp:
                         res.append((None, s1, exc, org))
                         continue
                     thrown = norm(e.args[0]).split(".")[-1] if e.args else "Exception"
-                    if s1.stream in ("PB", "FRESH"):
+                    if s1.stream in ("PB", "PBR", "FRESH"):
                         if self.lat.issub(thrown, "ValueError"):
                             res.append((None, replace(s1, stream="DEAD"), "LexerError", w))
                         else:
@@ -961,6 +990,7 @@ class Interp:
             tok = uses_tokens(fn)
             if tok:
                 st = self.t1_check(st, e)
+                st = self.raw_check(st, e, self.where(e))
             params = self.params_of(defcls, fn)
             # positional + keyword arguments -> abstract parameter values
             npos = len(e.args)
@@ -978,6 +1008,8 @@ class Interp:
                     s2 = replace(st.add(dlo, dhi), stream=stream, skipped=skipped, after_end=st.after_end or after_end)
                 else:
                     s2 = st
+                if kind == "return" and fn.name == "parse_end_aggregation":
+                    s2 = s2.set("$closed", "TRUE")
                 if kind == "return":
                     if origin == "falloff" and tok and self.value_used(e):
                         self.report("T8", f"{defcls}.{fn.name}" if defcls else fn.name, "falls off the end",
@@ -1004,7 +1036,8 @@ class Interp:
         ok = lambda v: [(v, st, None, None)]
         # token predicates with protocol meaning
         if name == "is_WSC" and (recv_val == "TOKEN" or True) and not e.args and isinstance(f, ast.Attribute):
-            return [("TRUE", st.add(-1, -1), None, None), ("FALSE", st, None, None)]
+            # a white-space/comment token was consumed and discarded: not significant; a skip is in progress
+            return [("TRUE", replace(st.add(-1, -1), skipped=True).set("$raw", None), None, None), ("FALSE", st, None, None)]
         if name == "is_end_statement" and isinstance(f, ast.Attribute):
             return [("TRUE", replace(st, after_end=True), None, None), ("FALSE", st, None, None)]
         if isinstance(f, ast.Name):
